@@ -162,11 +162,13 @@ pub fn run_full<T: Model + BorshSerialize + BorshDeserialize>(op: &str, args: &[
         .or_else(|| rt_ops::<T>(op, args))
         .or_else(|| crate::ops_io::io_ser_ops::<T>(op, args))
         .or_else(|| crate::ops_io::io_de_ops::<T>(op, args))
+        .or_else(|| crate::ops_canon::ops::<T>(op, args))
         .unwrap_or_else(|| format!("harness-error unknown op {}", op))
 }
 pub fn run_ser<T: Model + BorshSerialize>(op: &str, args: &[&str]) -> String {
     ser_ops::<T>(op, args)
         .or_else(|| crate::ops_io::io_ser_ops::<T>(op, args))
+        .or_else(|| crate::ops_canon::ops::<T>(op, args))
         .unwrap_or_else(|| "skip ser-only".to_string())
 }
 
